@@ -66,6 +66,7 @@ MAP = [
  ("undo of row and column insert/delete panics", "C08", "merge_layer_down(2); justify_line_left(); delete_column(); set_palette_mode(RGB); undo/redo walk panics in DeleteColumn::undo (index out of bounds)"),
  ("cursor up with a scroll region scrolls once per requested line", "C03", "ESC[2;24r ESC[2147483647A (13-byte CUU/VPB with top/bottom margins): 2^31 region scrolls"),
  ("cursor up in a file buffer leaves the caret on a negative row", "C02", "ANSI file 'ESC[4h ESC[2k 2': caret row -2 in a non-terminal buffer, print_char panics (capacity overflow)"),
+ ("a PSF font with zero glyph height or width is accepted", "C02", "Avatar/ANSI file 'ESC P q \"7; ESC \\ ESC P CTerm:Font:0:NgQAAA== ESC \\' (sixel + PSF1 font with charsize 0): loader divides the image height by font height 0"),
 ]
 
 def main():
